@@ -17,6 +17,7 @@ EXPLANATION = (
     "cover the same element kinds. Not decided: stride arithmetic inside copy_into_row_major; the variadic (NArgs) kernels' loop-carried offset is "
     "reported as unrecognised (evidence only)."
     " (R5) in the variadic concatenation arms the running offset advances by the block's extent along the concatenation dimension (shape()[1] in horzcat, shape()[0] in vertcat)."
+    " (R6) the CopyMat block-copy primitives are executed over a finite table of block/result shapes and offsets: every element of the block lands at its row/column of the column-major result exactly once and the returned advance is the block's row count (row-major copy) or length (linear copies)."
 )
 
 
